@@ -41,9 +41,10 @@ type SimReader struct {
 	mode  int // 0 whole, 1 fixed chunk, 2 random chunk per read, 3 one byte
 	chunk int
 	// faults
-	ErrAt       int  // inject ErrSimRead once off >= ErrAt (-1: never)
-	EOFWithData bool // deliver the last chunk together with io.EOF
-	ZeroReads   int  // number of (0,nil) reads still to be injected
+	ErrAt       int   // inject ErrSimRead once off >= ErrAt (-1: never)
+	Err         error // the failure to inject instead of ErrSimRead
+	EOFWithData bool  // deliver the last chunk together with io.EOF
+	ZeroReads   int   // number of (0,nil) reads still to be injected
 	// accounting
 	Reads     int
 	Requested int64
@@ -85,6 +86,9 @@ func (r *SimReader) Read(p []byte) (int, error) {
 		return 0, nil
 	}
 	if r.ErrAt >= 0 && r.off >= r.ErrAt {
+		if r.Err != nil {
+			return 0, r.Err
+		}
 		return 0, ErrSimRead
 	}
 	if r.off >= len(r.data) {
